@@ -6,9 +6,15 @@
 //!   every point untouched;
 //! * a point whose name is in the session's park set parks the thread, every other point (and
 //!   every [`note`]) is only recorded in the global trace;
-//! * a released thread that neither reaches its next parking point nor finishes within the step
-//!   timeout is reported as `Blocked`: the schedule is infeasible (not a violation), the session
-//!   switches to free running and the threads are joined.
+//! * harness code (the app's `update` / `view`, task futures, a host waker) can call [`point`] itself:
+//!   gates that need no hook in the crux source. A thread parked at such a gate may hold a lock
+//!   (the model lock inside `update` / `view`), so a released thread can legitimately *block*:
+//!   a running thread whose OS state is "sleeping" for a number of consecutive samples
+//!   (/proc/self/task/<tid>/stat) is reported as `Blocked` and the schedule goes on with the
+//!   other threads; it continues by itself once the lock is released;
+//! * a released thread that neither parks, finishes nor blocks within the (generous) step timeout
+//!   makes the schedule infeasible (not a violation); the session switches to free running and the
+//!   threads are joined; a join that does not complete is a deadlock (reported).
 use std::cell::Cell;
 use std::sync::{Arc, Condvar, Mutex, Once};
 use std::time::{Duration, Instant};
@@ -35,6 +41,7 @@ pub enum StepOutcome {
 }
 
 struct Inner {
+    os_tid: Vec<Option<u32>>,
     status: Vec<Status>,
     go: Vec<bool>,
     trace: Vec<Ev>,
@@ -49,14 +56,16 @@ struct Ctl {
 }
 
 static CTL: Ctl = Ctl {
-    m: Mutex::new(Inner { status: Vec::new(), go: Vec::new(), trace: Vec::new(), park: Vec::new(), free: true, panicked: Vec::new() }),
+    m: Mutex::new(Inner { os_tid: Vec::new(), status: Vec::new(), go: Vec::new(), trace: Vec::new(), park: Vec::new(), free: true, panicked: Vec::new() }),
     cv: Condvar::new(),
 };
 static INSTALL: Once = Once::new();
 
 thread_local! { static TID: Cell<Option<usize>> = const { Cell::new(None) }; }
 
-pub const STEP_TIMEOUT: Duration = Duration::from_millis(1500);
+pub const STEP_TIMEOUT: Duration = Duration::from_secs(30);
+/// consecutive 1 ms samples in OS state "sleeping" after which a running thread counts as blocked
+const BLOCKED_SAMPLES: u32 = 15;
 
 fn lock() -> std::sync::MutexGuard<'static, Inner> {
     CTL.m.lock().unwrap_or_else(std::sync::PoisonError::into_inner)
@@ -76,6 +85,11 @@ fn hit(name: &'static str, val: u64) {
     }
     g.go[tid] = false;
     g.status[tid] = Status::Running;
+}
+
+/// A schedule point in harness code (an app-level gate): parks if `name` is in the park set.
+pub fn point(name: &'static str, val: u64) {
+    hit(name, val);
 }
 
 /// Record an observation made by harness code running on a controlled thread (never parks).
@@ -109,6 +123,7 @@ pub fn begin(n: usize, park: &[&'static str]) {
     });
     let mut g = lock();
     g.status = vec![Status::Running; n];
+    g.os_tid = vec![None; n];
     g.go = vec![false; n];
     g.panicked = vec![false; n];
     g.trace.clear();
@@ -121,6 +136,8 @@ pub fn begin(n: usize, park: &[&'static str]) {
 pub fn spawn<F: FnOnce() + Send + 'static>(tid: usize, f: F) -> std::thread::JoinHandle<()> {
     std::thread::spawn(move || {
         TID.with(|t| t.set(Some(tid)));
+        let os = std::fs::read_link("/proc/thread-self").ok().and_then(|p| p.file_name().and_then(|f| f.to_str().and_then(|x| x.parse::<u32>().ok())));
+        lock().os_tid[tid] = os;
         hit("start", 0);
         let r = std::panic::catch_unwind(std::panic::AssertUnwindSafe(f));
         let mut g = lock();
@@ -134,20 +151,70 @@ pub fn spawn<F: FnOnce() + Send + 'static>(tid: usize, f: F) -> std::thread::Joi
     })
 }
 
-/// Wait until no controlled thread is running; false on timeout.
+fn os_sleeping(os: u32) -> bool {
+    // state is the first field after the parenthesised command name
+    std::fs::read_to_string(format!("/proc/self/task/{os}/stat"))
+        .ok()
+        .and_then(|t| t.rfind(')').map(|i| t[i + 1..].trim_start().starts_with('S')))
+        .unwrap_or(false)
+}
+
+/// Wait until every controlled thread is parked, finished, or running-but-blocked (asleep in the
+/// OS, i.e. waiting for a lock another controlled thread holds); false on timeout.
 pub fn settle() -> bool {
     let deadline = Instant::now() + STEP_TIMEOUT;
-    let mut g = lock();
+    let n = lock().status.len();
+    let mut sleepy = vec![0u32; n];
     loop {
-        if g.status.iter().all(|s| *s != Status::Running) && g.go.iter().all(|x| !*x) {
+        let running: Vec<(usize, Option<u32>)>;
+        {
+            let g = lock();
+            let pending_go = g.go.iter().any(|x| *x);
+            running = (0..n).filter(|i| g.status[*i] == Status::Running).map(|i| (i, g.os_tid[i])).collect();
+            if !pending_go && running.is_empty() {
+                return true;
+            }
+            let (g, _) = CTL.cv.wait_timeout(g, Duration::from_millis(1)).unwrap_or_else(std::sync::PoisonError::into_inner);
+            let still_go = g.go.iter().any(|x| *x);
+            drop(g);
+            if pending_go || still_go {
+                if Instant::now() >= deadline {
+                    return false;
+                }
+                continue;
+            }
+        }
+        let mut all_blocked = true;
+        for i in 0..n {
+            match running.iter().find(|(t, _)| *t == i) {
+                Some((_, Some(os))) if os_sleeping(*os) => sleepy[i] += 1,
+                _ => sleepy[i] = 0,
+            }
+        }
+        {
+            let g = lock();
+            for (t, _) in &running {
+                if g.status[*t] == Status::Running && sleepy[*t] < BLOCKED_SAMPLES {
+                    all_blocked = false;
+                }
+            }
+            if g.go.iter().any(|x| *x) {
+                all_blocked = false;
+            }
+        }
+        if all_blocked {
             return true;
         }
-        let now = Instant::now();
-        if now >= deadline {
+        if Instant::now() >= deadline {
             return false;
         }
-        g = CTL.cv.wait_timeout(g, deadline - now).unwrap_or_else(std::sync::PoisonError::into_inner).0;
     }
+}
+
+/// Threads that are running but blocked (only meaningful right after [`settle`] returned true).
+pub fn blocked() -> Vec<usize> {
+    let g = lock();
+    (0..g.status.len()).filter(|i| g.status[*i] == Status::Running).collect()
 }
 
 pub fn enabled() -> Vec<usize> {
@@ -194,27 +261,25 @@ pub fn all_finished() -> bool {
     lock().status.iter().all(|s| *s == Status::Finished)
 }
 
-/// Release thread `tid` from its parking point and wait until it parks again or finishes.
-pub fn step(tid: usize) -> StepOutcome {
-    let deadline = Instant::now() + STEP_TIMEOUT;
-    let mut g = lock();
-    assert!(g.status[tid] == Status::Parked, "step of a thread that is not parked");
-    g.go[tid] = true;
-    CTL.cv.notify_all();
-    loop {
-        if !g.go[tid] {
-            match g.status[tid] {
-                Status::Parked => return StepOutcome::Parked,
-                Status::Finished => return StepOutcome::Finished,
-                Status::Running => {}
-            }
-        }
-        let now = Instant::now();
-        if now >= deadline {
-            return StepOutcome::Blocked;
-        }
-        g = CTL.cv.wait_timeout(g, deadline - now).unwrap_or_else(std::sync::PoisonError::into_inner).0;
+/// Release thread `tid` from its parking point and wait until the system is quiet again: `tid`
+/// (and any thread that was blocked and could go on) has parked, finished or blocked.
+/// `None` = nothing settled within the timeout (a thread is spinning).
+pub fn step(tid: usize) -> Option<StepOutcome> {
+    {
+        let mut g = lock();
+        assert!(g.status[tid] == Status::Parked, "step of a thread that is not parked");
+        g.go[tid] = true;
+        CTL.cv.notify_all();
     }
+    if !settle() {
+        return None;
+    }
+    let g = lock();
+    Some(match g.status[tid] {
+        Status::Parked => StepOutcome::Parked,
+        Status::Finished => StepOutcome::Finished,
+        Status::Running => StepOutcome::Blocked,
+    })
 }
 
 /// Let every controlled thread run freely from now on (used to wind down an infeasible schedule).
@@ -256,6 +321,14 @@ pub enum Policy<'a> {
     /// run thread `tid` until it is parked at one of the named points (or finishes), directive
     /// after directive; then continue with the lowest enabled thread
     Directed(&'a [(usize, Vec<&'static str>)]),
+    /// no control at all: every thread is released at once (a stress run; the outcome predicates
+    /// are still evaluated)
+    Free,
+}
+
+/// Number of recorded events with this name.
+pub fn count_events(name: &str) -> usize {
+    lock().trace.iter().filter(|e| e.name == name).count()
 }
 
 /// Name of the last recorded event of thread `tid`.
@@ -278,8 +351,21 @@ pub fn run_schedule(
     threads: Vec<Box<dyn FnOnce() + Send + 'static>>,
     park: &[&'static str],
     prefix: &[usize],
+    policy: Policy<'_>,
+    max_steps: usize,
+) -> RunOutcome {
+    run_schedule_obs(threads, park, prefix, policy, max_steps, &mut || {})
+}
+
+/// As [`run_schedule`]; `observe` is called at every decision point, i.e. whenever every thread is
+/// parked, finished or blocked (used to sample invariants of the intermediate states).
+pub fn run_schedule_obs(
+    threads: Vec<Box<dyn FnOnce() + Send + 'static>>,
+    park: &[&'static str],
+    prefix: &[usize],
     mut policy: Policy<'_>,
     max_steps: usize,
+    observe: &mut dyn FnMut(),
 ) -> RunOutcome {
     let n = threads.len();
     begin(n, park);
@@ -289,7 +375,9 @@ pub fn run_schedule(
     let mut choices = Vec::new();
     let mut dir_idx = 0usize;
     let mut dir_steps = 0usize;
-    while feasible {
+    let free = matches!(policy, Policy::Free);
+    while feasible && !free {
+        observe();
         let en = enabled_fair();
         if en.is_empty() {
             break;
@@ -313,6 +401,7 @@ pub fn run_schedule(
                     _ => en[0],
                 },
                 Policy::Random(r) => en[r.below(en.len() as u64) as usize],
+                Policy::Free => en[0],
                 Policy::Directed(ds) => {
                     let mut pick = en[0];
                     while dir_idx < ds.len() {
@@ -333,15 +422,15 @@ pub fn run_schedule(
         };
         choices.push(en);
         schedule.push(pick);
-        if step(pick) == StepOutcome::Blocked {
+        if step(pick).is_none() {
             feasible = false;
         }
     }
-    if feasible && !all_finished() {
+    if feasible && !free && !all_finished() {
         feasible = false;
     }
     free_run();
-    let joined = join_all(handles, Duration::from_secs(10));
+    let joined = join_all(handles, Duration::from_secs(30));
     let (trace, panicked) = end();
     RunOutcome { schedule, choices, feasible, hung: !joined, trace, panicked }
 }
@@ -361,6 +450,7 @@ pub fn explore_all<S>(
     max_runs: usize,
     max_steps: usize,
     max_preempt: usize,
+    mut observe: impl FnMut(&S),
     mut done: impl FnMut(S, RunOutcome),
 ) -> (usize, bool) {
     let mut stack: Vec<Vec<usize>> = vec![Vec::new()];
@@ -370,7 +460,7 @@ pub fn explore_all<S>(
             return (runs, false);
         }
         let (st, threads) = make();
-        let out = run_schedule(threads, park, &prefix, Policy::First, max_steps);
+        let out = run_schedule_obs(threads, park, &prefix, Policy::First, max_steps, &mut || observe(&st));
         runs += 1;
         // alternatives are pushed in reverse so that the enumeration order is lexicographic
         for i in (prefix.len()..out.schedule.len()).rev() {
